@@ -228,6 +228,14 @@ def run(ctx, model=None):
     ctx.extra["rule"] = RULE
     clock_independence(ctx)
     edit_between_solves(ctx, random.Random(ctx.seed + 77), 40 if ctx.quick() else 1500)
+    import analysis as _an
+    _r = random.Random(ctx.seed + 1010)
+    # "solving the same description again ... returns identical results": also when the process environment differs
+    # between the two solves (decimal context, environment variables the solver turns out to read)
+    _an.environment_independence(ctx, [gen.slow_cycle_game(_r) for _ in range(2)] + [gen.stopping_game(_r) for _ in range(4 if ctx.quick() else 60)] +
+                                 [gen.decimal_tie_game(_r)], "identical-in-another-process-environment")
+    _an.described_at_solve_time(ctx, [gen.stopping_game(_r, extra_finals=0.25) for _ in range(4 if ctx.quick() else 60)],
+                                "same-object-solves-the-description-it-holds")
     rng = random.Random(ctx.seed * 15485863 + 10)
     seqs = op_sequences(rng, ctx.quick())
     games = []
@@ -314,4 +322,9 @@ def hashseed_stability(ctx, games):
 def replay(ctx, viol):
     g = viol["input"]["game"]
     g["transition_list"] = [[tuple(t) for t in row] for row in g["transition_list"]]
+    import analysis as _an
+    if viol.get("clause") == "identical-in-another-process-environment":
+        return _an.environment_independence(ctx, [g], viol["clause"])
+    if viol.get("clause") == "same-object-solves-the-description-it-holds":
+        return _an.described_at_solve_time(ctx, [g], viol["clause"])
     check_case(ctx, g, [tuple(x) for x in viol["input"]["ops"]], None)
